@@ -1,9 +1,12 @@
 """Generator / overlay histories (C09) against the real ptera.
 
 usage: python -m harness.drivers.gen_driver CASES.json OUT.json
-ops: ["enter", o] ["exit", o] ["new", g] ["next", g] ["close", g] ["drop", g] ["callg", v]
-overlays: o1 = 'gen > g > a' (requires the generator as an ancestor), o2 = 'g > a'
+case: {"id", "mode": "overlay"|"probe", "ops": [...]}
+ops: ["enter", o] ["exit", o] ["new", g] ["next", g] ["close", g] ["drop", g] ["callg", v] ["drive", ""] ["undrive", ""]
+overlays: o1 = 'gen > g > a' (requires the generator as an ancestor), o2 = 'g > a', o3 = 'drive > g > a' (the function the
+driver's code runs in between "drive" and "undrive")
 generators: gen(2) objects of the instrumented generator function of lifeworld
+mode overlay: BaseOverlay + Immediate handlers; mode probe: ptera.probing objects entered / left by hand
 """
 import gc
 import json
@@ -12,24 +15,67 @@ import sys
 from harness.worlds import lifeworld as LW
 from ptera.interpret import Immediate
 from ptera.overlay import BaseOverlay, HandlerCollection, tooled
+from ptera.probe import probing
 from ptera.selector import select
 
-for fn in (LW.g, LW.gen):
+for fn in (LW.g, LW.gen, LW.drive):
     tooled.inplace(fn)
-ENV = {"g": LW.g, "gen": LW.gen}
+ENV = {"g": LW.g, "gen": LW.gen, "drive": LW.drive}
+TEXT = {"o1": "gen > g > a", "o2": "g > a", "o3": "drive > g > a"}
+
+
+class Stop(Exception):
+    pass
 
 
 def run_case(case):
-    recv = {"o1": [], "o2": []}
-    h1 = Immediate(select("gen > g > a", env=ENV), trigger=lambda d: recv["o1"].append(d["a"].value))
-    h2 = Immediate(select("g > a", env=ENV), trigger=lambda d: recv["o2"].append(d["a"].value))
-    ovl = {"o1": BaseOverlay(h1), "o2": BaseOverlay(h2)}
-    roots = {id(h1.selector): "R1", id(h2.selector): "R2"}
+    recv = {o: [] for o in TEXT}
+    mode = case.get("mode", "overlay")
+    sels = {o: select(t, env=ENV) for o, t in TEXT.items()}
+    if mode == "overlay":
+        hs = {o: Immediate(sels[o], trigger=lambda d, o=o: recv[o].append(d["a"].value)) for o in TEXT}
+        ovl = {o: BaseOverlay(hs[o]) for o in TEXT}
+    else:
+        ovl = {}
+        for o, t in TEXT.items():
+            p = probing(t, env=ENV)
+            p.subscribe(lambda d, o=o: recv[o].append(d["a"]))
+            ovl[o] = p
+    roots = {id(sels[o]): "R" + o[1] for o in TEXT}
     gens = {}
     steps = []
-    for op in case["ops"]:
-        outcome = "ok"
-        ret = -1
+
+    def owner_of(sel, acc):
+        """which overlay a derived (child) pair belongs to: through its root accumulator"""
+        seen = set()
+        x = acc
+        while x is not None and id(x) not in seen:
+            seen.add(id(x))
+            for o in TEXT:
+                if mode == "overlay" and (x is hs[o] or getattr(x, "_trigger", 0) is hs[o]._trigger):
+                    return o[1]
+            x = getattr(x, "parent", None)
+        if mode == "probe":
+            # probing() builds its own accumulators: identify the overlay by the selector the root pair was made from
+            x = acc
+            while getattr(x, "parent", None) is not None:
+                x = x.parent
+            for o in TEXT:
+                if getattr(x, "selector", None) is sels[o]:
+                    return o[1]
+        return "?"
+
+    def snapshot(op, outcome, ret):
+        cur = HandlerCollection.current.get()
+        items = []
+        if cur is not None:
+            for sel, acc in cur.handler_pairs:
+                items.append(roots[id(sel)] if id(sel) in roots else "K" + owner_of(sel, acc))
+        steps.append({"op": op, "outcome": outcome, "ret": ret if isinstance(ret, int) else -2, "cur": items,
+                      "recv": {k: list(v) for k, v in recv.items()}})
+
+    def do(op):
+        outcome, ret = "ok", -1
         try:
             if op[0] == "enter":
                 ovl[op[1]].__enter__()
@@ -52,17 +98,32 @@ def run_case(case):
                 ret = LW.g(op[1])
         except Exception as ex:
             outcome = type(ex).__name__
-        cur = HandlerCollection.current.get()
-        items = []
-        if cur is not None:
-            for sel, acc in cur.handler_pairs:
-                if id(sel) in roots:
-                    items.append(roots[id(sel)])
-                else:
-                    owner = "1" if (acc is h1 or getattr(acc, "_trigger", None) is h1._trigger) else "2"
-                    items.append("K" + owner)
-        steps.append({"op": op, "outcome": outcome, "ret": ret if isinstance(ret, int) else -2, "cur": items,
-                      "recv": {k: list(v) for k, v in recv.items()}})
+        snapshot(op, outcome, ret)
+
+    ops = case["ops"]
+    i = 0
+    while i < len(ops):
+        op = ops[i]
+        if op[0] == "drive":
+            j = next((k for k in range(i + 1, len(ops)) if ops[k][0] == "undrive"), len(ops))
+            inner = ops[i + 1:j]
+
+            def run():
+                snapshot(op, "ok", -1)
+                for q in inner:
+                    do(q)
+                return 0
+            try:
+                LW.drive(run)
+                out = "ok"
+            except Exception as ex:
+                out = type(ex).__name__
+            if j < len(ops):
+                snapshot(ops[j], out, -1)
+            i = j + 1
+        else:
+            do(op)
+            i += 1
     for g in list(gens.values()):
         try:
             g.close()
@@ -70,8 +131,14 @@ def run_case(case):
             pass
     gens.clear()
     gc.collect()
+    for o in TEXT:
+        try:
+            if mode == "probe" and getattr(ovl[o], "_activated", False):
+                ovl[o].__exit__(None, None, None)
+        except Exception:
+            pass
     HandlerCollection.current.set(None)
-    return {"id": case["id"], "steps": steps}
+    return {"id": case["id"], "mode": mode, "steps": steps}
 
 
 def main():
